@@ -11,7 +11,7 @@ from vf.core import LibRaised, Result, lib
 ID = "C17"
 TITLE = "Simulation is invariant to time-origin shifts and equivalent schedule forms"
 LEVEL = "exploration"
-BUDGET = {"quick": 1600, "thorough": 400000}
+BUDGET = {"quick": 3200, "thorough": 400000}
 SHRINK = {"quick": False, "thorough": True}
 RULE = (
     "Pairs of runs on one generated configuration (table, pressure pair, nx 3..60, reservoir class). 'dyadic': "
